@@ -369,7 +369,19 @@ impl VariablesState {
                 _ => false,
             },
             ValueType::List(val) => match &default_val.value {
-                ValueType::List(default_val) => *val == *default_val,
+                // Two empty lists are only the same when they belong to the same list(s)
+                ValueType::List(default_val) => {
+                    *val == *default_val
+                        && (!val.items.is_empty() || {
+                            let mut names = val.get_origin_names();
+                            let mut default_names = default_val.get_origin_names();
+                            names.sort();
+                            names.dedup();
+                            default_names.sort();
+                            default_names.dedup();
+                            names == default_names
+                        })
+                }
                 _ => false,
             },
             ValueType::String(val) => match &default_val.value {
